@@ -1,4 +1,5 @@
 pub mod engine;
 pub mod sparql;
+pub mod update;
 pub mod oracle_datalog;
 pub mod gen_datalog;
